@@ -71,6 +71,7 @@ class VLoop(asyncio.SelectorEventLoop):
         # the same iteration while time() is still below their deadline (asyncio runs a timer up to one clock resolution
         # early) - behaviour must not depend on it
         self.early_at = set(early_at)
+        self.armed_ticks = set()      # every tick some timer was armed for (used to find coincidences worth an early run)
         self.vnow = 0.0
         self.pending_io = []  # heap of (time, seq, callback)
         self._io_seq = 0
@@ -92,6 +93,7 @@ class VLoop(asyncio.SelectorEventLoop):
     def call_at(self, when, callback, *args, context=None):
         self._check_closed()
         timer = VTimerHandle(when, callback, args, self, context)
+        self.armed_ticks.add(int(round(when / TICK)))
         self._tseq += 1
         timer._vseq = -self._tseq if self.rev_ties else self._tseq
         heapq.heappush(self._scheduled, timer)
